@@ -25,11 +25,13 @@
 (* equals the number of transitions TLC generated.  The orchestrator walks *)
 (* edge-covering tours through the real client.Storage.                    *)
 (***************************************************************************)
-EXTENDS ClientsCore, Sequences, FiniteSetsExt, TLC, Json
+EXTENDS ClientsCore, Sequences, FiniteSetsExt, Functions, TLC, Json
 
 \* (ClientsCore is EXTENDed, not INSTANCEd with a substitution: TLC's coverage
 \* pre-pass is exponential in the nesting depth of substituted operators.)
-CONSTANT U   \* the universe record, see the definitions at the end; U.w = W
+CONSTANTS U,          \* the universe record, see the definitions at the end; U.w = W
+          SampleMod,  \* Observe prints the outgoing edges of the states whose key
+          SampleSeed  \* hashes to 0 modulo SampleMod (1 = of every state)
 
 ASSUME U.w = W
 
@@ -121,6 +123,10 @@ EdgesLease(R, L) == UNION {
         m \in (U.leasemacs \cup {NoId}) \ {L[a]}}
     : a \in LeaseAddrs}
 
+\* The quick tier replays the edges of a seeded fraction of the states (the
+\* lookup tables of ALL states are printed and all states are model-checked).
+Sampled(k) == (FoldFunction(+, SampleSeed, [i \in DOMAIN k |-> k[i] * (2 * i + 5)])) % SampleMod = 0
+
 EffCode(e) == 4 * NameIdx(e.who) + (IF e.vals = "own" THEN 2 ELSE 0) + (IF e.svcs = "own" THEN 1 ELSE 0)
 
 StateRecord(R, L) ==
@@ -132,7 +138,10 @@ StateRecord(R, L) ==
      \* ApplyClientFiltering(cid, address): 4*who + 2*[own values] + [own services]
      ap |-> [i \in 1..Len(U.cids) |-> [j \in 1..Len(U.addrs) |->
                 EffCode(Effective(R, L, Global, U.cids[i], U.addrs[j]))]],
-     e  |-> EdgesAdd(R, L) \cup EdgesUpd(R, L) \cup EdgesRem(R, L) \cup EdgesLease(R, L)]
+     e  |-> IF Sampled(Key(R, L))
+            THEN EdgesAdd(R, L) \cup EdgesUpd(R, L) \cup EdgesRem(R, L) \cup EdgesLease(R, L)
+            ELSE {},
+     s  |-> Sampled(Key(R, L))]
 
 Observe == /\ U.emit
            /\ PrintT(<<"@@S", ToJson(StateRecord(clients, leases))>>)
